@@ -24,7 +24,8 @@ def shard_args(tier, seed):
     n = BUDGET[tier] // NSHARDS
     out = []
     for i in range(NSHARDS):
-        out.append({"n": n, "seed": seed * 1000 + i // 2, "order": "local_first" if i % 2 == 0 else "server_first", "pair": i // 2})
+        out.append({"n": n, "seed": seed * 1000 + i // 2, "order": "local_first" if i % 2 == 0 else "server_first", "pair": i // 2,
+                    "pathmap_cap": 1200 if tier == "quick" else 12000})
     return out
 
 
@@ -55,7 +56,7 @@ def run(snap, tier, seed, t0, replay):
     m.counters["cross_process_comparisons"] = cross
     c = m.counters
     floors = {"round trips": (c.get("roundtrip", 0), BUDGET[tier]),
-              "cross-process comparisons": (cross, BUDGET[tier] // 4),
+              "cross-process comparisons": (cross, 4000 if tier == "quick" else 40000),
               "names containing separator": (c.get("sep_in_name", 0), BUDGET[tier] // 20),
               "pathless / untyped": (c.get("none_expected", 0), BUDGET[tier] // 50),
               "configs": (len([k for k in c if k.startswith("config:")]), 2)}
@@ -142,7 +143,7 @@ def worker(args):
             if rel is None:
                 rec.violation("path_outside_root", cc, ps)
             rels[c] = rel
-            if len(pathmap) < 1200:
+            if len(pathmap) < args.get("pathmap_cap", 1200):
                 pathmap[x.uri + "|" + c] = rel
         if len(rels) >= 2 and len(set(rels.values())) != 1:
             rec.violation("relative_paths_differ_between_configs", case, repr(rels))
